@@ -8,6 +8,30 @@ def _norm(s):
     return re.sub(r"\s+", "", s)
 
 
+def _inline_simple_lets(body, keep=()):
+    """immutable `let name = expr;` whose expr is a plain cast / arithmetic / field / index expression (no call, no `?`, no
+    block, no borrow) is replaced by its defining expression at its uses (in parentheses when it has an operator): such an
+    expression is pure and reads only immutable locals and fields of `&self`, so the text means the same.  Names in `keep` (the
+    ones the patterns below spell) and every `let mut` stay."""
+    b = body
+    for _ in range(8):
+        done = True
+        for lm in re.finditer(r"\blet\s+(\w+)\s*(?::\s*[\w:<>]+\s*)?=\s*([^;{}()?&]+);", b):
+            name, expr = lm.group(1), lm.group(2).strip()
+            if name in keep or not re.fullmatch(r"[\w\s.\[\]+\-*]+", expr) or re.search(r"\blet\s+mut\s+%s\b" % re.escape(name), b):
+                continue
+            rest = b[lm.end():]
+            if re.search(r"(?<![A-Za-z0-9_.])%s\s*(?:[-+*/^|&]?=)(?!=)" % re.escape(name), rest):
+                continue    # assigned to later: not a plain binding
+            rep_ = "(%s)" % expr if re.search(r"[+\-*]", expr) else expr
+            b = b[:lm.start()] + re.sub(r"(?<![A-Za-z0-9_.:])%s(?![A-Za-z0-9_])" % re.escape(name), lambda _m: rep_, rest)
+            done = False
+            break
+        if done:
+            break
+    return b
+
+
 def _loops_over_parts(co):
     """the loop that folds the word ids runs over path[begin..end] (written with .iter(), as a borrow, or through a binding)"""
     m = re.search(r"for(\w+)in([^{};]*)\{[^{}]*wid=wid\.max\(\1\.word_id\(\)\);", co)
@@ -67,8 +91,8 @@ def gen():
     if not m:
         raise F.FactError("LexiconSet::lookup is no longer `lexicons.iter()[.rev()].flat_map(lookup)`")
     out.append("Definition lookup_reversed : bool := %s.\n" % ("true" if m.group(1) else "false"))
-    gb = _norm(F.fn_body(ls, "get_word_info_subset", "lexicon_set.rs"))
-    m = re.search(r"ifdict_id(>=|>|!=)(\d+)&&pos_id(>=|>)self\.num_system_pos\{word_info\.pos_id=\(pos_idasusize-self\.num_system_pos\+self\.pos_offsets\[dict_idasusize\]\)asu16;\}", gb)
+    gb = _norm(_inline_simple_lets(F.fn_body(ls, "get_word_info_subset", "lexicon_set.rs"), keep=("pos_id", "dict_id", "word_info")))
+    m = re.search(r"ifdict_id(>=|>|!=)(\d+)&&pos_id(>=|>)self\.num_system_pos\{word_info\.pos_id=\(pos_id(?:asusize)?-self\.num_system_pos\+self\.pos_offsets\[dict_idasusize\]\)asu16;\}", gb)
     if not m:
         # the same rule in a private helper: `word_info.pos_id = self.helper(word_info.pos_id, dict_id)` under the POS_ID test,
         # helper(raw, dict_id) = if dict_id > 0 && raw >= num_system_pos { raw - num_system_pos + pos_offsets[dict_id] } else { raw }
@@ -97,7 +121,12 @@ def gen():
     for fld in ("a_unit_split", "b_unit_split", "word_structure"):
         if "Self::update_dict_id(&mutword_info.%s,dict_id)?;" % fld not in gb:
             raise F.FactError("get_word_info_subset no longer re-stamps %s" % fld)
-    ub = _norm(F.fn_body(ls, "update_dict_id", "lexicon_set.rs"))
+    ubs = F.fn_body(ls, "update_dict_id", "lexicon_set.rs")
+    lv = re.search(r"\bfor\s+(\w+)\s+in\s+split\.iter_mut\(\)", ubs)
+    if lv and lv.group(1) != "id" and not re.search(r"(?<![A-Za-z0-9_])id(?![A-Za-z0-9_])", ubs):
+        # the loop variable's name is free (a consistent renaming to a name that does not occur in the function)
+        ubs = re.sub(r"(?<![A-Za-z0-9_.])%s(?![A-Za-z0-9_])" % re.escape(lv.group(1)), "id", ubs)
+    ub = _norm(ubs)
     m = re.search(r"letcur_dict_id=id\.dic\(\);ifcur_dict_id(>=|>|!=)(\d+)\{\*id=WordId::checked\(dict_id,id\.word\(\)\)\?;\}", ub)
     if not m:
         m = re.search(r"foridinsplit\.iter_mut\(\)\{ifid\.dic\(\)(>=|>|!=)(\d+)\{\*id=WordId::checked\(dict_id,id\.word\(\)\)\?;\}\}", ub)
